@@ -7,6 +7,8 @@ From Coq Require Import List NArith ZArith.
 From Coq.Strings Require Import Byte.
 From SP Require Import Bytes Params Msgpack Crypto Errors Nonce Packets Chunker Rand Sign Verify Encrypt Decrypt Signcrypt Spec
      ConformProofs.
+From SP Require GoLang GoLang2 GoAstProofs ChunkerProofs GoAstProofs5a GoAstProofs6a GoAstProofs6b.
+From Coq Require String.
 Import ListNotations.
 Open Scope N_scope.
 
@@ -69,6 +71,271 @@ Theorem C08_sig_nonce_is_16_bytes_refutes_32 (c : crypto) (v : version) (sk : by
   sign_attached_stream c v sk pieces r = Ok (out, r') -> length (firstn 16 r) = 16%nat.
 Proof. exact (sig_nonce_is_16_bytes c v sk pieces r r' out). Qed.
 
+(* ---- source ties: the bytes the Go senders hand to their writer are the model's bytes ---- *)
+(* Model-side bridges of proofs/GoAstProofs5a.v (encryption), 6a.v (signing) and 6b.v (signcryption).  The
+   C01 / C05 / C07 / C03 _source_ theorems say that the translated Go bodies of the senders compute the
+   specification functions es_* / sas_* / sds_* / sss_* of those files for EVERY writer behind the encoder.  The
+   theorems here instantiate the writer with the in-memory one, [mem_enc] (the bytes.Buffer of seal() / Sign /
+   signcryptSeal: the encoder object is VBytes of the bytes written so far; it never fails), and show that what
+   those specification functions leave in the encoder is, byte for byte, what the MODEL's senders emit
+   (encrypt_packets / seal_stream, sign_packets / sign_attached_stream / sign_detached, signcrypt_packets /
+   signcrypt_core) — the senders the conformance theorems above are about.  The three files define their own
+   gerr / mem_enc / blk (= 1 MiB, the block size as the code passes it to Buffer.Next); each section below
+   imports one of them. *)
+
+Section C08_encryption_sender.   (* GoAstProofs5a.v *)
+Import GoLang GoLang2 GoAstProofs GoAstProofs5a String.StringSyntax.
+
+(* init = the head of the model's seal_stream.  With the in-memory writer (hypothesis: the encoder object is
+   VBytes out) and the three sources drawn as the model draws them from ONE stream r (model_sources: the key
+   creator's source is what the shuffle leaves, createSymmetricKey's is what the ephemeral key leaves), es_init
+   (= the translated encryptStream.init, C01_source_encryptStream_init) is never stuck; it fails iff seal_stream
+   fails at its head, with the same error class and the object untouched; otherwise seal_stream's result is the
+   header packet init wrote followed by encrypt_packets (payload key, header hash, MAC keys that init left in
+   `es`) over cw_session of the pieces, with the stream init's createSymmetricKey source ended at.
+   Other hypothesis: at most 2^31-1 receivers (beyond that csprngShuffle panics, which the model does not have). *)
+Theorem C08_source_es_init_model (c : crypto) (st : es_state) (out : bytes) (v : version) (sender : option bytes)
+        (rcpts : list rcpt) (pieces : list bytes) (r : rng) :
+  es_enc st = VBytes out ->
+  (Z.of_nat (List.length rcpts) <= 2147483647)%Z ->
+  match es_init c mem_enc st v sender rcpts r (fst (model_sources rcpts r)) (snd (model_sources rcpts r)) with
+  | IStuck _ => False
+  | IRet (Some (n, _)) st' _ _ _ =>
+    st' = st /\ exists e, seal_stream c v sender rcpts pieces r = Err e /\ sender_err_name e = n
+  | IRet None st' _ _ rc' =>
+    exists hdr_pkt,
+      st' = mkEs (es_v st) (VBytes (out ++ hdr_pkt)) (es_pk st') (es_buf st) (es_hh st') (es_mks st') (es_n st) (es_err st) /\
+      seal_stream c v sender rcpts pieces r
+      = bind (encrypt_packets c v (es_pk st') (es_hh st') (es_mks st') 0 (cw_session v enc_block_size [] pieces))
+             (fun body => Ok (hdr_pkt ++ body, rc'))
+  end.
+Proof. exact (es_init_model c st out v sender rcpts pieces r). Qed.
+End C08_encryption_sender.
+
+Section C08_signing_senders.   (* GoAstProofs6a.v *)
+Import GoLang GoLang2 GoAstProofs GoAstProofs6a String.StringSyntax.
+
+(* makeSignatureBlock builds the model's packet: the block object it returns (C05_source_makeSignatureBlock) is
+   written by go-codec (as_packet) as the model's mv_sig_block v sig (MBin chunk) final exactly when
+   known_version v, and it panics (None) exactly when the version is unknown.  No hypothesis. *)
+Theorem C08_source_mk_sig_block_model (v : version) (sig chunk : bytes) (final : bool) :
+  match mk_sig_block v (VBytes sig) (VBytes chunk) final with
+  | Some b => known_version v = true /\ as_packet b = Some (mv_sig_block v sig (MBin chunk) final)
+  | None => known_version v = false
+  end.
+Proof. exact (mk_sig_block_model v sig chunk final). Qed.
+
+(* one signBlock on the in-memory writer = one packet of the model's sign_packets appended to out, seqno+1, the
+   rest of the buffer kept; where the model reports its Panic 3/4 (no signature input / bad chunk state) signBlock
+   is stuck at the panicking callee.  sas_block_from st final ch rest is signBlock after `chunk :=
+   s.buffer.Next(1 MiB)` took ch and left rest.  Hypotheses: the encoder object is VBytes out; the read check
+   checkSignBlockRead holds (Write / Close establish it); seqno+1 < 2^64. *)
+Theorem C08_source_sas_block_from_model (c : crypto) (st : sas_state) (out : bytes) (final : bool) (ch rest : bytes) :
+  sas_enc st = VBytes out ->
+  read_ok (sas_v st) final 1048576 (Z.of_nat (List.length ch)) (Z.of_nat (List.length rest)) = true ->
+  (sas_seq st + 1 < two64)%N ->
+  match sign_packets c (sas_v st) (sas_sk st) (sas_hh st) (sas_seq st) [(ch, final)] with
+  | Ok body => sas_block_from c mem_enc st final ch rest
+               = BRet None (mkSas (sas_v st) (sas_hh st) (VBytes (out ++ body)) (sas_sk st) rest (sas_seq st + 1))
+  | Err _ => exists w, sas_block_from c mem_enc st final ch rest = BStuck w
+  end.
+Proof. exact (sas_block_from_model c st out final ch rest). Qed.
+
+(* Write on the in-memory writer flushes exactly the blocks of the model's chunker, fst (cw_write 1MiB buf p), each
+   signed as sign_packets signs a non-final chunk from seqno on (which cannot fail here), and leaves
+   snd (cw_write ..) buffered; it returns (len p, nil).  Hypotheses: known_version (checked by the constructor);
+   encoder = VBytes out; the number of blocks is below the evaluator's loop bound F; seqno + blocks < 2^64. *)
+Theorem C08_source_sas_write_model (c : crypto) (st : sas_state) (out p : bytes) (F : nat) :
+  known_version (sas_v st) = true -> sas_enc st = VBytes out ->
+  let bs := fst (cw_write blk (sas_buf st) p) in
+  let buf' := snd (cw_write blk (sas_buf st) p) in
+  (List.length bs < F)%nat -> (sas_seq st + N.of_nat (List.length bs) < two64)%N ->
+  exists body, sign_packets c (sas_v st) (sas_sk st) (sas_hh st) (sas_seq st) (nonfinal6 bs) = Ok body /\
+    sas_write c mem_enc F st p
+    = WRet (Z.of_nat (List.length p)) None
+           (mkSas (sas_v st) (sas_hh st) (VBytes (out ++ body)) (sas_sk st) buf' (sas_seq st + N.of_nat (List.length bs))).
+Proof. exact (sas_write_model c st out p F). Qed.
+
+(* Close on the in-memory writer writes sign_packets (cw_close v 1MiB buf) — the model's final packet(s) — and
+   empties the buffer; where the model reports a panic (V2, empty final chunk after packet 0) Close is
+   CloseStuck "call".  Hypotheses: known_version; encoder = VBytes out; at most 1 MiB buffered (what every Write
+   leaves: cw_write_bounded); seqno + 2 < 2^64. *)
+Theorem C08_source_sas_close_model (c : crypto) (st : sas_state) (out : bytes) :
+  known_version (sas_v st) = true -> sas_enc st = VBytes out ->
+  (List.length (sas_buf st) <= blk)%nat -> (sas_seq st + 2 < two64)%N ->
+  let pk := cw_close (sas_v st) blk (sas_buf st) in
+  match sign_packets c (sas_v st) (sas_sk st) (sas_hh st) (sas_seq st) pk with
+  | Ok body => sas_close c mem_enc st
+               = CloseRet None (mkSas (sas_v st) (sas_hh st) (VBytes (out ++ body)) (sas_sk st) []
+                                      (sas_seq st + N.of_nat (List.length pk)))
+  | Err _ => sas_close c mem_enc st = CloseStuck "call"
+  end.
+Proof. exact (sas_close_model c st out). Qed.
+
+(* a whole attached-signature session (sas_session F: the constructor sas_new on the empty in-memory writer with
+   the randomness r, one sas_write F per piece, sas_close; Some out = the bytes finally in the writer) writes
+   exactly the bytes of the model's sign_attached_stream.  Hypotheses: the model succeeds with outb; the number of
+   packets is below the evaluator's loop bound F (297 at the fuel of run_func2); packets + 2 < 2^64. *)
+Theorem C08_source_sas_session_model (c : crypto) (F : nat) (v : version) (sk : bytes) (pieces : list bytes)
+        (r r' : rng) (outb : bytes) :
+  sign_attached_stream c v sk pieces r = Ok (outb, r') ->
+  (List.length (cw_session v sig_block_size [] pieces) < F)%nat ->
+  (N.of_nat (List.length (cw_session v sig_block_size [] pieces)) + 2 < two64)%N ->
+  sas_session c F v sk pieces r = Some outb.
+Proof. exact (sas_session_model c F v sk pieces r r' outb). Qed.
+
+(* the detached signer: the constructor sds_new on the empty in-memory writer, a Write per piece (each appends to
+   the digest state: C07_source_signDetachedStream_Write), then the packet Close hands the encoder
+   (C07_source_signDetachedStream_Close) leave in the writer exactly the bytes of the model's sign_detached on the
+   concatenated pieces.  Hypothesis: the model succeeds with outb. *)
+Theorem C08_source_sds_session_model (c : crypto) (v : version) (sk : bytes) (pieces : list bytes) (r r' : rng) (outb : bytes) :
+  sign_detached c v sk (concat pieces) r = Ok (outb, r') ->
+  exists st0, sds_new c mem_enc v (VBytes []) (Some sk) r = ORet [g_sds st0; VNil] /\
+    let stN := fold_left (fun st p => mkSds (sds_enc st) (sds_sk st) (sds_hashed st ++ p)) pieces st0 in
+    let sig := ed_sign c (sds_sk stN) (detached_sig_input_from_hash (sha512 c (sds_hashed stN))) in
+    mem_enc (sds_enc stN) (mp_encode (MBin sig)) = (VBytes outb, None).
+Proof. exact (sds_session_model c v sk pieces r r' outb). Qed.
+End C08_signing_senders.
+
+Section C08_signcryption_sender.   (* GoAstProofs6b.v *)
+Import GoLang GoLang2 GoAstProofs ChunkerProofs GoAstProofs6b String.StringSyntax.
+
+(* signcryptBlock is ONE STEP of the model's signcrypt_packets, for every writer enc_step: panic iff isFinal and
+   bytes remain; ErrPacketOverflow where the model says so; else the model's packet of that step is handed to the
+   encoder and the counter incremented — the assertion assertEncodedChunkState never fires.  Hypotheses: Hsb, Hsig
+   = NaCl's and ed25519's lengths (crypto_ok.ok_sb_len, ok_sig_len: a secretbox is 16 bytes longer than its
+   plaintext, a signature is 64 bytes); a Version-2 stream (newSigncryptSealStream sets Version2()).
+   [overflow] is the Go error value ErrPacketOverflow (no arguments). *)
+Theorem C08_source_sss_block_model (c : crypto)
+        (Hsb : forall k n m, List.length (sb_seal c k n m) = (16 + List.length m)%nat)
+        (Hsig : forall s m, List.length (ed_sign c s m) = 64%nat)
+        (enc_step : gval -> bytes -> gval * gerr) (st : sss_state) (final : bool) :
+  vmaj (ss_v st) = 2%Z ->
+  sss_block c enc_step st final =
+  let pt := firstn blk (ss_buf st) in
+  let rest := skipn blk (ss_buf st) in
+  if (final && negb (Z.of_nat (List.length rest) =? 0)%Z)%bool then BPanic
+  else match signcrypt_packets c (ss_signer st) (ss_key st) (ss_hh st) (ss_n st) [(pt, final)] with
+       | Err _ => BRet overflow (set_buf st rest)
+       | Ok packet =>
+         let r := enc_step (ss_enc st) packet in
+         match snd r with
+         | Some e => BRet (Some e) (set_enc (set_buf st rest) (fst r))
+         | None => BRet None (set_n (set_enc (set_buf st rest) (fst r)) (ss_n st + 1))
+         end
+       end.
+Proof. exact (sss_block_model c Hsb Hsig enc_step st final). Qed.
+
+(* Write over the in-memory writer: the non-final blocks the model's cw_write emits are signcrypted as
+   signcrypt_packets does and appended to the output; cw_write's remainder stays buffered (st_after st out' buf' n'
+   = st with encoder VBytes out', buffer buf', counter n'); if the model overflows the packet counter, Write
+   returns (0, ErrPacketOverflow) and stores it in sss.err.  Hypotheses: Hsb, Hsig as above; Version 2; encoder =
+   VBytes out; no sticky error; buffer ++ p of at most 296 MiB (the evaluator's loop bound). *)
+Theorem C08_source_sss_write_model (c : crypto)
+        (Hsb : forall k n m, List.length (sb_seal c k n m) = (16 + List.length m)%nat)
+        (Hsig : forall s m, List.length (ed_sign c s m) = 64%nat)
+        (st : sss_state) (out p : bytes) :
+  vmaj (ss_v st) = 2%Z -> ss_enc st = VBytes out -> ss_err st = None ->
+  (List.length (ss_buf st ++ p) <= 296 * blk)%nat ->
+  let blocks := fst (cw_write enc_block_size (ss_buf st) p) in
+  let buf' := snd (cw_write enc_block_size (ss_buf st) p) in
+  match signcrypt_packets c (ss_signer st) (ss_key st) (ss_hh st) (ss_n st) (nonfinal blocks) with
+  | Ok body => sss_write c mem_enc st p
+               = WRet (Z.of_nat (List.length p)) None (st_after st (out ++ body) buf' (ss_n st + N.of_nat (List.length blocks)))
+  | Err _ => exists st', sss_write c mem_enc st p = WRet 0 overflow st' /\ ss_err st' = overflow
+  end.
+Proof. exact (sss_write_model c Hsb Hsig st out p). Qed.
+
+(* Close over the in-memory writer, on a buffer of at most one block (what Write leaves: cw_write_bounded): the
+   final packet of the model's cw_close, signcrypted as the model does, is appended and the buffer emptied; or
+   ErrPacketOverflow where the model says so.  Hypotheses: Hsb, Hsig; Version 2; encoder = VBytes out; at most
+   1 MiB buffered. *)
+Theorem C08_source_sss_close_model (c : crypto)
+        (Hsb : forall k n m, List.length (sb_seal c k n m) = (16 + List.length m)%nat)
+        (Hsig : forall s m, List.length (ed_sign c s m) = 64%nat)
+        (st : sss_state) (out : bytes) :
+  vmaj (ss_v st) = 2%Z -> ss_enc st = VBytes out ->
+  (List.length (ss_buf st) <= blk)%nat ->
+  match signcrypt_packets c (ss_signer st) (ss_key st) (ss_hh st) (ss_n st) (cw_close v2 enc_block_size (ss_buf st)) with
+  | Ok body => sss_close c mem_enc st = CloseRet None (st_after st (out ++ body) [] (ss_n st + 1))
+  | Err _ => sss_close c mem_enc st = CloseRet overflow (set_buf st [])
+  end.
+Proof. exact (sss_close_model c Hsb Hsig st out). Qed.
+
+(* a whole session (sss_session: sss_write per piece, stopping at the first error, then sss_close) over the in-memory
+   writer emits exactly the packets the model's sender emits for cw_session (the plan signcrypt_core runs
+   signcrypt_packets on), whatever the split into pieces.  Hypotheses: Hsb, Hsig; Version 2; encoder = VBytes out;
+   no sticky error; at most one block buffered at the start; pieces of at most 295 MiB (evaluator fuel). *)
+Theorem C08_source_sss_session_model (c : crypto)
+        (Hsb : forall k n m, List.length (sb_seal c k n m) = (16 + List.length m)%nat)
+        (Hsig : forall s m, List.length (ed_sign c s m) = 64%nat)
+        (pieces : list bytes) (st : sss_state) (out : bytes) :
+  vmaj (ss_v st) = 2%Z -> ss_enc st = VBytes out -> ss_err st = None ->
+  (List.length (ss_buf st) <= blk)%nat ->
+  Forall (fun p : bytes => (List.length p <= 295 * blk)%nat) pieces ->
+  match signcrypt_packets c (ss_signer st) (ss_key st) (ss_hh st) (ss_n st) (cw_session v2 enc_block_size (ss_buf st) pieces) with
+  | Ok body => sss_session c mem_enc st pieces
+               = CloseRet None (st_after st (out ++ body) []
+                                 (ss_n st + N.of_nat (List.length (cw_session v2 enc_block_size (ss_buf st) pieces))))
+  | Err _ => exists st', sss_session c mem_enc st pieces = CloseRet overflow st'
+  end.
+Proof. exact (sss_session_model c Hsb Hsig pieces st out). Qed.
+
+(* the model's signcrypt_core with its header NAMED as init builds it: sc_header_go c v2 signer eph_sk key rs is
+   the header of sss_init (C03_source_signcryptSealStream_init), sc_sender_pub_go the signer's public key or 32
+   zero bytes; same sender-key length check (the model's Panic 10 = init's panic), then the header packet followed
+   by signcrypt_packets over cw_session of the pieces.  No hypothesis. *)
+Theorem C08_source_signcrypt_core_go (c : crypto) (signer : option bytes) (eph_sk key : bytes) (rs : list sc_rcpt)
+        (pieces : list bytes) :
+  signcrypt_core c signer eph_sk key rs pieces =
+  if negb (Nat.eqb (List.length (sc_sender_pub_go c signer)) 32) then Err (Panic 10)
+  else bind (signcrypt_packets c signer key (sha512 c (sc_header_go c v2 signer eph_sk key rs)) 0
+               (cw_session v2 enc_block_size [] pieces))
+         (fun body => Ok (mp_encode (MBin (sc_header_go c v2 signer eph_sk key rs)) ++ body)).
+Proof. exact (signcrypt_core_go c signer eph_sk key rs pieces). Qed.
+
+(* init (sss_init, i.e. the translated init), then Write*, then Close over the in-memory writer on a fresh
+   Version-2 stream object write exactly the bytes of the model's signcrypt_core on the three draws; the model's
+   panic (bad signing key length) is init's panic; where the model overflows, the session ends with
+   ErrPacketOverflow.  Hypotheses: Hsb, Hsig; the fresh object (v2, empty output, no error, empty buffer, counter
+   0); the receivers check and the three draws (shuffle from ra, ephemeral key from rb, payload key from rk)
+   succeed; pieces of at most 295 MiB (evaluator fuel). *)
+Theorem C08_source_sss_seal_core (c : crypto)
+        (Hsb : forall k n m, List.length (sb_seal c k n m) = (16 + List.length m)%nat)
+        (Hsig : forall s m, List.length (ed_sign c s m) = 64%nat)
+        (st : sss_state) (boxes : list bytes) (syms : list (bytes * bytes)) (ra rk rb : bytes)
+        (rs : list sc_rcpt) (ra1 eph_sk rb1 key rk1 : bytes) (pieces : list bytes) :
+  ss_v st = v2 -> ss_enc st = VBytes [] -> ss_err st = None -> ss_buf st = [] -> ss_n st = 0%N ->
+  sc_check_receivers boxes syms = Ok tt ->
+  shuffle (all_rcpts boxes syms) ra = Some (rs, ra1) ->
+  read_full 32 rb = Some (eph_sk, rb1) ->
+  read_full 32 rk = Some (key, rk1) ->
+  Forall (fun p : bytes => (List.length p <= 295 * blk)%nat) pieces ->
+  match signcrypt_core c (ss_signer st) eph_sk key rs pieces with
+  | Ok out =>
+    exists st1, sss_init c mem_enc st boxes syms ra rk rb = IRet None st1 ra1 rk1 rb1 /\
+    exists st2, sss_session c mem_enc st1 pieces = CloseRet None st2 /\ ss_enc st2 = VBytes out /\ ss_buf st2 = []
+  | Err (Panic _) => sss_init c mem_enc st boxes syms ra rk rb = IPanic
+  | Err _ =>
+    exists st1, sss_init c mem_enc st boxes syms ra rk rb = IRet None st1 ra1 rk1 rb1 /\
+    exists st2, sss_session c mem_enc st1 pieces = CloseRet overflow st2
+  end.
+Proof. exact (sss_seal_core c Hsb Hsig st boxes syms ra rk rb rs ra1 eph_sk rb1 key rk1 pieces). Qed.
+End C08_signcryption_sender.
+
+Print Assumptions C08_source_es_init_model.
+Print Assumptions C08_source_mk_sig_block_model.
+Print Assumptions C08_source_sas_block_from_model.
+Print Assumptions C08_source_sas_write_model.
+Print Assumptions C08_source_sas_close_model.
+Print Assumptions C08_source_sas_session_model.
+Print Assumptions C08_source_sds_session_model.
+Print Assumptions C08_source_sss_block_model.
+Print Assumptions C08_source_sss_write_model.
+Print Assumptions C08_source_sss_close_model.
+Print Assumptions C08_source_sss_session_model.
+Print Assumptions C08_source_signcrypt_core_go.
+Print Assumptions C08_source_sss_seal_core.
 Print Assumptions C08_constants_conform.
 Print Assumptions C08_chunking_allowed.
 Print Assumptions C08_encryption_conforms.
